@@ -253,10 +253,9 @@ func TestC03(t *testing.T) {
 	seed := vh.Seed()
 	r := vh.Sub(seed, "c03")
 
-	all, err := shippedMessages()
-	if err != nil {
-		t.Fatal(err)
-	}
+	all := shippedOrViolation(rep, t)
+	var err error
+	_ = err
 	users, err := userMsgInfos()
 	if err != nil {
 		rep.Violation("msg=user what=init", "a well-formed user-defined message struct was rejected: "+err.Error(), nil)
